@@ -811,6 +811,7 @@ var mutKinds = []string{
 	"resigned_after_inject", "resigned_after_inject", "resigned_after_reject", "resigned_after_reject",
 	"huge_hours_create", "huge_hours_create", "huge_hours_spend", "huge_hours_spend",
 	"dup_txn_inflate", "dup_txn_inflate", "maxhours_create", "valid_null_addr",
+	"malformed_txn", "malformed_txn", "dsp_fan", "dsp_fan", "hdr_special", "hdr_special", "hdr_special",
 }
 
 // header mutations are submitted either re-signed by the publisher key (so only
@@ -861,8 +862,8 @@ func (h *history) nextValid(n *node, unspent []coin.UxOut, k int) (coin.Block, b
 	if h.w.r.Chance(10) {
 		dt = 1
 	}
-	if h.w.r.Chance(5) {
-		dt = uint64(h.w.r.Intn(1 << 30)) * 3600
+	if h.w.r.Chance(5) && !h.scripted { // huge gaps make coin-hour computations overflow: random histories only
+		dt = uint64(h.w.r.Intn(1<<30)) * 3600
 	}
 	t := head.Head.Time + dt
 	if t < head.Head.Time {
@@ -1154,10 +1155,13 @@ func (h *history) mutate(kind string) (opRec, bool) {
 					withHours = append(withHours, ux)
 				}
 			}
-			if len(withHours) == 0 || len(sp) < 2 {
+			if len(sp) < 2 || sp[0].Body.Coins < 2 {
 				return opRec{}, false
 			}
-			tin := withHours[0]
+			tin := sp[0] // without hours anywhere both fees are 0: X is then re-signed until its hash sorts after T's
+			if len(withHours) > 0 {
+				tin = withHours[0]
+			}
 			var xin *coin.UxOut
 			for i := range sp {
 				if sp[i].Hash() != tin.Hash() && sp[i].Body.Coins < ^uint64(0)-1000 {
@@ -1183,6 +1187,14 @@ func (h *history) mutate(kind string) (opRec, bool) {
 			}
 			X := w.buildTxn([]coin.UxOut{*xin}, []coin.TransactionOutput{
 				{Address: w.addrs[2], Coins: xc, Hours: hoursAt(*xin, head.Head.Time)}}, xo)
+			for try := 0; try < 40 && len(withHours) == 0; try++ {
+				xh, th := X.Hash(), T.Hash()
+				if strings.Compare(string(xh[:]), string(th[:])) > 0 {
+					break
+				}
+				X = w.buildTxn([]coin.UxOut{*xin}, []coin.TransactionOutput{
+					{Address: w.addrs[2], Coins: xc, Hours: hoursAt(*xin, head.Head.Time)}}, xo)
+			}
 			switch v % 3 {
 			case 0:
 				b.Body.Transactions = coin.Transactions{T, X, T}
@@ -1193,6 +1205,203 @@ func (h *history) mutate(kind string) (opRec, bool) {
 			}
 		}
 		rehash(&b)
+	case "malformed_txn":
+		// a structurally malformed transaction inside an otherwise valid block, at any
+		// height including the first block after genesis: 0 no inputs and no signatures
+		// (it would mint its outputs), 1 no inputs but a signature, 2 inputs without
+		// signatures, 3 no outputs, 4 the genesis transaction itself replayed
+		v := h.variant
+		if v < 0 {
+			v = r.Intn(5)
+		}
+		var m coin.Transaction
+		switch v % 5 {
+		case 0, 1:
+			m.Out = []coin.TransactionOutput{{Address: w.addrs[r.Intn(nKeys)], Coins: uint64(1+r.Intn(1000)) * 1000000, Hours: 0}}
+			m.InnerHash = m.HashInner()
+			if v%5 == 1 {
+				m.Sigs = []cipher.Sig{w.detSign(m.InnerHash, w.keys[0])}
+			}
+			if err := m.UpdateHeader(); err != nil {
+				return opRec{}, false
+			}
+		case 2:
+			m = w.buildTxn(in0, t0.Out, txOpt{})
+			m.Sigs = nil
+			if err := m.UpdateHeader(); err != nil {
+				return opRec{}, false
+			}
+		case 3:
+			m = w.buildTxn(in0, nil, txOpt{})
+		default:
+			m = h.genesis.Body.Transactions[0]
+		}
+		switch {
+		case v%5 == 2 || v%5 == 3: // replaces the transaction whose inputs it uses
+			b.Body.Transactions[0] = m
+		case h.variant >= 5 || (h.variant < 0 && r.Bool()): // alone in the block
+			b.Body.Transactions = coin.Transactions{m}
+		default: // next to valid transactions, first or last
+			if r.Bool() {
+				b.Body.Transactions = append(b.Body.Transactions, m)
+			} else {
+				b.Body.Transactions = append(coin.Transactions{m}, b.Body.Transactions...)
+			}
+		}
+		rehash(&b)
+	case "dsp_fan":
+		// star and chain conflicts: ONE multi-input transaction T0 (the best paying: it
+		// burns all its hours) conflicts with SEVERAL other transactions on DIFFERENT
+		// outputs. 0/1: T0{X,Y} T1{X} T2{Y} (two orders); 2: T0{X,Y,Z} T1{X} T2{Y} T3{Z};
+		// 3: chain T0{X,Y} T1{Y,Z} T2{Z,W}; 4: T0{X,Y} T1{Y} T2{X} with T0 last
+		var sp []coin.UxOut
+		for _, ux := range h.unspent {
+			if _, ok := w.keyOf[ux.Body.Address]; ok {
+				sp = append(sp, ux)
+			}
+		}
+		// outputs with hours first, so that T0 gets the highest fee
+		sort.SliceStable(sp, func(i, j int) bool { return hoursAt(sp[i], head.Head.Time) > hoursAt(sp[j], head.Head.Time) })
+		v := h.variant
+		if v < 0 {
+			v = r.Intn(5)
+		}
+		need := 2
+		if v%5 == 2 {
+			need = 3
+		} else if v%5 == 3 {
+			need = 4
+		}
+		if len(sp) < need {
+			if len(sp) < 2 {
+				return opRec{}, false
+			}
+			v, need = 0, 2
+		}
+		mkf := func(burn bool, ins ...coin.UxOut) (coin.Transaction, bool) {
+			var c, hr uint64
+			for _, ux := range ins {
+				if c+ux.Body.Coins < c {
+					return coin.Transaction{}, false
+				}
+				c += ux.Body.Coins
+				hh := hoursAt(ux, head.Head.Time)
+				if hr+hh < hr {
+					return coin.Transaction{}, false
+				}
+				hr += hh
+			}
+			if burn {
+				hr = 0
+			}
+			return w.buildTxn(ins, []coin.TransactionOutput{{Address: w.addrs[r.Intn(nKeys)], Coins: c, Hours: hr}}, txOpt{}), true
+		}
+		var txs coin.Transactions
+		okAll := true
+		addT := func(burn bool, ins ...coin.UxOut) {
+			t, ok := mkf(burn, ins...)
+			okAll = okAll && ok
+			txs = append(txs, t)
+		}
+		switch v % 5 {
+		case 0:
+			addT(true, sp[0], sp[1])
+			addT(false, sp[0])
+			addT(false, sp[1])
+		case 1:
+			addT(false, sp[0])
+			addT(true, sp[0], sp[1])
+			addT(false, sp[1])
+		case 2:
+			addT(true, sp[0], sp[1], sp[2])
+			addT(false, sp[0])
+			addT(false, sp[1])
+			addT(false, sp[2])
+		case 3:
+			addT(true, sp[0], sp[1])
+			addT(false, sp[1], sp[2])
+			addT(false, sp[2], sp[3])
+		default:
+			addT(false, sp[1])
+			addT(false, sp[0])
+			addT(true, sp[0], sp[1])
+		}
+		if !okAll {
+			return opRec{}, false
+		}
+		b.Body.Transactions = txs
+		rehash(&b)
+	case "hdr_special":
+		// distinguished values in every header field of an otherwise valid next block,
+		// re-signed by the publisher key: field = variant / 5 (UxHash, PrevHash, BodyHash,
+		// Time, BkSeq, Fee, Version), value = variant % 5 (all-zero, all-ones, the head's
+		// value, the genesis block's value, the value from two blocks back)
+		v := h.variant
+		if v < 0 {
+			v = r.Intn(35)
+		}
+		field, val := (v/5)%7, v%5
+		if field == 3 && val == 1 && h.variant < 0 {
+			val = 0 // Time = 2^64-1 is a VALID block after which no block can follow: scripted last only
+		}
+		src := head.Head // the head's header
+		switch val {
+		case 3:
+			src = h.genesis.Head
+		case 4:
+			if len(h.accepted) >= 2 {
+				src = h.accepted[len(h.accepted)-2].Head
+			} else {
+				src = h.genesis.Head
+			}
+		}
+		var ones cipher.SHA256
+		for i := range ones {
+			ones[i] = 0xff
+		}
+		pickHash := func(cur *cipher.SHA256, from cipher.SHA256) {
+			switch val {
+			case 0:
+				*cur = cipher.SHA256{}
+			case 1:
+				*cur = ones
+			default:
+				*cur = from
+			}
+		}
+		pick64 := func(cur *uint64, from uint64) {
+			switch val {
+			case 0:
+				*cur = 0
+			case 1:
+				*cur = ^uint64(0)
+			default:
+				*cur = from
+			}
+		}
+		switch field {
+		case 0:
+			pickHash(&b.Head.UxHash, src.UxHash)
+		case 1:
+			pickHash(&b.Head.PrevHash, src.PrevHash)
+		case 2:
+			pickHash(&b.Head.BodyHash, src.BodyHash)
+		case 3:
+			pick64(&b.Head.Time, src.Time)
+		case 4:
+			pick64(&b.Head.BkSeq, src.BkSeq)
+		case 5:
+			pick64(&b.Head.Fee, src.Fee)
+		default:
+			switch val {
+			case 0:
+				b.Head.Version = 0
+			case 1:
+				b.Head.Version = ^uint32(0)
+			default:
+				b.Head.Version = src.Version + uint32(val) - 2
+			}
+		}
 	case "resigned_after_inject", "resigned_after_reject":
 		// Two variants of ONE transaction body (same inputs and outputs, hence the same
 		// inner hash) signed twice: different signatures, different transaction hashes,
@@ -1444,6 +1653,9 @@ func (h *history) mutate(kind string) (opRec, bool) {
 	if headerMut[kind] {
 		resign = h.scripted || r.Chance(70)
 	}
+	if kind == "hdr_special" {
+		resign = true
+	}
 	var sb coin.SignedBlock
 	if resign {
 		sb = w.sign(b, signer)
@@ -1515,7 +1727,14 @@ type scriptStep struct {
 func scriptFor(arb bool) []scriptStep {
 	var sc []scriptStep
 	add := func(k string, v int) { sc = append(sc, scriptStep{k, v}) }
+	// malformed transactions in the very first block after genesis (head = genesis)
+	for v := 0; v < 10; v++ {
+		add("malformed_txn", v)
+	}
 	add("valid_split", -1)
+	for v := 0; v < 5; v++ {
+		add("malformed_txn", v)
+	}
 	if arb {
 		add("node_signed", -1)
 		add("sig_replay", 0) // the head's signature = the one the node made last
@@ -1534,12 +1753,28 @@ func scriptFor(arb bool) []scriptStep {
 			add("sig_replay", v)
 		}
 	}
+	add("valid_split", -1)
 	for v := 0; v < 6; v++ {
 		add("dup_txn_inflate", v)
+		if v == 2 {
+			add("valid_split", -1)
+		}
 	}
 	add("valid_split", -1)
 	for v := 0; v < 8; v++ {
 		add("dsp_inblock_multi", v)
+	}
+	add("valid_split", -1)
+	for v := 0; v < 5; v++ {
+		add("dsp_fan", v)
+		if v == 2 {
+			add("valid_split", -1)
+		}
+	}
+	for v := 0; v < 35; v++ {
+		if v != 16 { // Time = 2^64-1 ends the chain: last step of the script
+			add("hdr_special", v)
+		}
 	}
 	add("resigned_after_inject", -1)
 	add("valid", -1)
@@ -1561,13 +1796,14 @@ func scriptFor(arb bool) []scriptStep {
 			add("valid", -1)
 		}
 	}
+	add("hdr_special", 16)
 	return sc
 }
 
 func run(args []string) error {
 	f := ParseFlags("c01", args)
 	logging.Disable()
-	n := f.Budget(20, 300)
+	n := f.Budget(16, 300)
 	r := NewRng(f.Seed)
 	o := NewOut()
 	hist := Hist{}
